@@ -87,6 +87,8 @@ func ErrName(err error) string {
 		return "EOF"
 	}
 
+	orig := err
+
 	for {
 		switch e := err.(type) {
 		case *fs.PathError:
@@ -129,6 +131,10 @@ func ErrName(err error) string {
 
 	switch {
 	case err == ErrInjected:
+		if orig != ErrInjected {
+			return "EINJECTED-WRAPPED" // C12: "exactly that error is returned" - not one that merely contains it
+		}
+
 		return "EINJECTED"
 	case err == io.EOF:
 		return "EOF"
@@ -686,6 +692,32 @@ func (s *Session) exec(c Call, res *Res) {
 		if err == nil {
 			res.Path = s.abstractPath(t)
 		}
+	case "abs":
+		t, err := vfs.Abs(p)
+		setErr(err)
+
+		if err == nil {
+			res.Path = s.abstractPath(t)
+		}
+	case "vsetuser", "vsetuserbyname":
+		// SetUser / SetUserByName as methods of the file system under test (through the wrapper, if any)
+		u, err := s.idmUser(c.Uid)
+		if err != nil {
+			panic(err)
+		}
+
+		if c.Uid != 0 && s.ProjFS == nil && s.Base != nil {
+			// the projection keeps reading as the administrator: through a view made before the user changes
+			if view, err := s.Base.Sub("/"); err == nil {
+				s.ProjFS, s.CwdFS = view, s.Base
+			}
+		}
+
+		if c.Op == "vsetuser" {
+			setErr(vfs.SetUser(u))
+		} else {
+			setErr(vfs.SetUserByName(u.Name()))
+		}
 	case "getwd":
 		t, err := vfs.Getwd()
 		setErr(err)
@@ -891,6 +923,34 @@ func (s *Session) setUser(uid, gid int) error {
 	}
 
 	return s.FS.SetUser(u)
+}
+
+// idmUser returns the user with the given id of the base's identity manager (u1 = 1001, u2 = 1002 are created on demand).
+func (s *Session) idmUser(uid int) (avfs.UserReader, error) {
+	idm := s.base().Idm()
+	if idm == nil || !s.base().HasFeature(avfs.FeatIdentityMgr) {
+		return nil, fmt.Errorf("target has no identity manager")
+	}
+
+	for _, n := range []string{"1", "2"} {
+		if _, err := idm.LookupGroup("g" + n); err != nil {
+			if _, err := idm.AddGroup("g" + n); err != nil {
+				return nil, err
+			}
+		}
+
+		if _, err := idm.LookupUser("u" + n); err != nil {
+			if _, err := idm.AddUser("u"+n, "g"+n); err != nil {
+				return nil, err
+			}
+		}
+	}
+
+	if uid == 0 {
+		return idm.AdminUser(), nil
+	}
+
+	return idm.LookupUserId(uid)
 }
 
 // countOf maps the specification's stand-in for "the largest int" (TLC integers are 32 bits wide).
